@@ -1380,9 +1380,11 @@ func (e *Entry) FixChoice() {
 						Source:     ce.Node.Statement(),
 						Extensions: ce.Node.Exts(),
 					},
-					Name:   ce.Name,
-					Kind:   CaseEntry,
-					Config: ce.Config,
+					Name: ce.Name,
+					Kind: CaseEntry,
+					// No Config: a case has no config statement,
+					// and the member's own applies to the member
+					// only, not to what is augmented in beside it.
 					Prefix: ce.Prefix,
 					Dir:    map[string]*Entry{ce.Name: ce},
 					Extra:  map[string][]interface{}{},
